@@ -54,3 +54,22 @@ func init() {
 	})
 	reg("(github.com/cosmos/cosmos-sdk/types.AccAddress).Bytes", func(p *preCall) Val { return p.args[0] })
 }
+
+func init() {
+	// gas meters: on a path that has not panicked the meter is within its limit (ConsumeGas panics when
+	// the limit is exceeded). The exceptional (panic/out-of-gas) flow is not modelled: see C40 not_decided.
+	for _, pk := range []string{"github.com/cosmos/cosmos-sdk/store/v2/types", "cosmossdk.io/store/types", "github.com/cosmos/cosmos-sdk/store/types"} {
+		regInv(pk+".GasMeter.IsPastLimit", func(p *preCall) Val {
+			p.fc().trusted["A-gas: on a non-panicking path a gas meter is not past its limit (exceptional flow not modelled)"] = true
+			return boolVal("false")
+		})
+		regInv(pk+".GasMeter.IsOutOfGas", func(p *preCall) Val {
+			return p.fc().freshVal(types.Typ[types.Bool], "oog")
+		})
+		for _, m := range []string{"GasConsumed", "GasConsumedToLimit", "GasRemaining", "Limit"} {
+			regInv(pk+".GasMeter."+m, func(p *preCall) Val { return p.fc().freshVal(types.Typ[types.Uint64], "gas") })
+		}
+		regInv(pk+".GasMeter.ConsumeGas", func(p *preCall) Val { return Val{} })
+		regInv(pk+".GasMeter.RefundGas", func(p *preCall) Val { return Val{} })
+	}
+}
